@@ -1,2 +1,805 @@
 import LenaModel.Model.C06
-/-! # C06 — helper lemmas -/
+/-! # C06 — helper lemmas and specification vocabulary
+
+* order: `StrictInc`, `countLE` (number of edges not greater than a value) and the key fact
+  `le_iff_lt_countLE` (in a strictly increasing array the edges `≤ v` are exactly the first
+  `countLE arr v` ones); the loop invariant proof `bin1dLoop_spec`;
+* sums over nested arrays (`total`), the walk of `histogram.fill` (`fillWalk_*`), regular shapes,
+  the frame lemmas for `NArr.modifyAt`;
+* cells of a mesh (`InCell`, `indices`, `inCell_iff`);
+* `check_edges_increasing`, `init_bins`.
+
+Core Lean only (`Std.IsLinearOrder`, `Std.LawfulOrderLT`, `Lean.Grind.AddCommMonoid` are core
+classes with instances for `Int`, `Nat`, `Rat`). -/
+open Lena Lena.C06
+namespace Lena.C06
+set_option linter.unusedSectionVars false
+set_option linter.unusedSimpArgs false
+
+section Order
+variable {α : Type} [LT α] [LE α] [DecidableLT α] [DecidableLE α] [DecidableEq α]
+  [Std.IsLinearOrder α] [Std.LawfulOrderLT α]
+
+def StrictInc (arr : List α) : Prop := arr.Pairwise (· < ·)
+def countLE (arr : List α) (v : α) : Nat := arr.countP (fun e => decide (e ≤ v))
+
+theorem lt_trans' {a b c : α} (h1 : a < b) (h2 : b < c) : a < c := by grind
+theorem not_le_of_lt' {a b : α} (h : a < b) : ¬ b ≤ a := by grind
+theorem lt_of_not_le' {a b : α} (h : ¬ b ≤ a) : a < b := by grind
+
+theorem increasingPairs_iff : ∀ (arr : List α), increasingPairs arr = true ↔ StrictInc arr
+  | [] => by simp [increasingPairs, StrictInc]
+  | [a] => by simp [increasingPairs, StrictInc]
+  | a :: b :: rest => by
+    have ih := increasingPairs_iff (b :: rest)
+    simp only [increasingPairs, Bool.and_eq_true, decide_eq_true_eq, ih, StrictInc, List.pairwise_cons]
+    constructor
+    · rintro ⟨hab, hb, hr⟩
+      refine ⟨?_, hb, hr⟩
+      intro x hx
+      rcases List.mem_cons.1 hx with rfl | hx
+      · exact hab
+      · exact lt_trans' hab (hb x hx)
+    · rintro ⟨ha, hb, hr⟩
+      exact ⟨ha b (by simp), hb, hr⟩
+
+theorem countLE_eq_zero_of_lt {arr : List α} {v : α} (h : ∀ x ∈ arr, v < x) : countLE arr v = 0 := by
+  unfold countLE
+  rw [List.countP_eq_zero]
+  intro x hx
+  have := h x hx
+  simp; grind
+
+theorem le_iff_lt_countLE {v : α} : ∀ {arr : List α}, StrictInc arr → ∀ (i : Nat) (h : i < arr.length),
+    arr[i] ≤ v ↔ i < countLE arr v
+  | [], _, i, h => by simp at h
+  | a :: as, hinc, i, h => by
+    have hp := List.pairwise_cons.1 hinc
+    by_cases hav : a ≤ v
+    · have hc : countLE (a :: as) v = countLE as v + 1 := by simp [countLE, List.countP_cons, hav]
+      cases i with
+      | zero => simp [hc, hav]
+      | succ i =>
+        have := le_iff_lt_countLE (v := v) hp.2 i (by simpa using h)
+        simp [hc, this]
+    · have hz : countLE as v = 0 := countLE_eq_zero_of_lt (fun x hx => by have := hp.1 x hx; grind)
+      have hc : countLE (a :: as) v = 0 := by
+        have : countLE (a :: as) v = countLE as v := by simp [countLE, List.countP_cons, hav]
+        omega
+      cases i with
+      | zero => simp [hc, hav]
+      | succ i =>
+        have hi : i < as.length := by simpa using h
+        have hlt : a < as[i] := hp.1 _ (List.getElem_mem hi)
+        simp [hc]; grind
+
+theorem countLE_le_length (arr : List α) (v : α) : countLE arr v ≤ arr.length := List.countP_le_length
+
+/-- the guess function stays within `[ind_min, ind_max]` at every state -/
+def GuessOK (guess : Nat → Nat → Int) : Prop :=
+  ∀ lo hi : Nat, lo ≤ hi → (lo : Int) ≤ guess lo hi ∧ guess lo hi ≤ (hi : Int)
+
+/-- the weakest form: the guess is within `[ind_min, ind_max]` at the states where the search for
+`val` in `arr` consults it, i.e. `ind_max − ind_min > 1` and `arr[ind_min] < val < arr[ind_max]` -/
+def GuessOKAt (arr : List α) (val : α) (guess : Nat → Nat → Int) : Prop :=
+  ∀ (lo hi : Nat) (h : hi < arr.length) (hl : lo + 1 < hi), arr[lo]'(by omega) < val → val < arr[hi] →
+    (lo : Int) ≤ guess lo hi ∧ guess lo hi ≤ (hi : Int)
+
+theorem GuessOK.at {guess : Nat → Nat → Int} (hg : GuessOK guess) (arr : List α) (val : α) :
+    GuessOKAt arr val guess := fun lo hi _ hl _ _ => hg lo hi (by omega)
+
+theorem lt_iff_not_le' {a b : α} : a < b ↔ ¬ b ≤ a := by grind
+
+theorem strictInc_getElem_lt {arr : List α} (hinc : StrictInc arr) {i j : Nat} (hij : i < j) (hj : j < arr.length) :
+    arr[i] < arr[j] := List.pairwise_iff_getElem.1 hinc i j (by omega) hj hij
+
+theorem bin1dLoop_spec (guess : Nat → Nat → Int) (val : α) (arr : List α) (hg : GuessOKAt arr val guess)
+    (hinc : StrictInc arr) :
+    ∀ (n lo hi : Nat), hi - lo = n → lo ≤ hi → hi < arr.length → lo ≤ countLE arr val →
+      countLE arr val ≤ hi + 1 → bin1dLoop guess val arr lo hi = .ok ((countLE arr val : Int) - 1) := by
+  intro n
+  induction n using Nat.strongRecOn with
+  | _ n ih =>
+    intro lo hi hn hle hhi hk1 hk2
+    have hlo : lo < arr.length := by omega
+    have klo : arr[lo] ≤ val ↔ lo < countLE arr val := le_iff_lt_countLE hinc lo hlo
+    have khi : arr[hi] ≤ val ↔ hi < countLE arr val := le_iff_lt_countLE hinc hi hhi
+    have llo : val < arr[lo] ↔ ¬ lo < countLE arr val := by rw [lt_iff_not_le', klo]
+    rw [bin1dLoop]
+    simp only [List.getElem?_eq_getElem hlo, List.getElem?_eq_getElem hhi]
+    by_cases hsmall : hi - lo ≤ 1
+    · simp only [hsmall, if_true]
+      by_cases h1 : val < arr[lo]
+      · simp only [h1, if_true]
+        have := llo.1 h1
+        congr 1; omega
+      · simp only [h1, if_false]
+        have := (not_congr llo).1 h1
+        by_cases h2 : arr[hi] ≤ val
+        · simp only [h2, if_true]
+          have := khi.1 h2
+          congr 1; omega
+        · simp only [h2, if_false]
+          have := (not_congr khi).1 h2
+          congr 1; omega
+    · simp only [hsmall, if_false]
+      by_cases he : val = arr[lo]
+      · rw [if_pos he]
+        have h1 : lo < countLE arr val := klo.1 (by rw [he]; exact Std.IsPreorder.le_refl _)
+        have h2 : ¬ (lo + 1 < countLE arr val) := by
+          intro hc
+          have hl1 : lo + 1 < arr.length := by omega
+          have := (le_iff_lt_countLE (v := val) hinc (lo + 1) hl1).2 hc
+          have hlt := strictInc_getElem_lt hinc (Nat.lt_succ_self lo) hl1
+          rw [he] at this
+          exact (lt_iff_not_le'.1 hlt) this
+        congr 1; omega
+      · simp only [he, if_false]
+        by_cases h1 : val < arr[lo]
+        · simp only [h1, if_true]
+          have := llo.1 h1
+          congr 1; omega
+        · simp only [h1, if_false]
+          have hlok := (not_congr llo).1 h1
+          by_cases h2 : arr[hi] ≤ val
+          · simp only [h2, if_true]
+            have := khi.1 h2
+            congr 1; omega
+          · simp only [h2, if_false]
+            have hhik := (not_congr khi).1 h2
+            have hlv : arr[lo] < val := by grind
+            have hvh : val < arr[hi] := lt_iff_not_le'.2 h2
+            have hgl := (hg lo hi hhi (by omega) hlv hvh).1
+            have hgh := (hg lo hi hhi (by omega) hlv hvh).2
+            have hnot : ¬ (guess lo hi < (lo : Int) ∨ (hi : Int) < guess lo hi) := by omega
+            simp only [hnot, if_false]
+            by_cases c1 : (lo : Int) = guess lo hi
+            · simp only [c1, if_true]
+              exact ih (hi - (lo + 1)) (by omega) (lo + 1) hi rfl (by omega) hhi (by omega) hk2
+            · simp only [c1, if_false]
+              by_cases c2 : (hi : Int) = guess lo hi
+              · simp only [c2, if_true]
+                exact ih (hi - 1 - lo) (by omega) lo (hi - 1) rfl (by omega) (by omega) hk1 (by omega)
+              · simp only [c2, if_false]
+                have hgn : (guess lo hi).toNat < arr.length := by omega
+                simp only [List.getElem?_eq_getElem hgn]
+                have kg := le_iff_lt_countLE (v := val) hinc (guess lo hi).toNat hgn
+                by_cases c3 : val < arr[(guess lo hi).toNat]
+                · simp only [c3, if_true]
+                  have := (not_congr kg).1 (lt_iff_not_le'.1 c3)
+                  exact ih ((guess lo hi).toNat - lo) (by omega) lo _ rfl (by omega) hgn hk1 (by omega)
+                · simp only [c3, if_false]
+                  have := kg.1 (by rw [lt_iff_not_le'] at c3; exact Classical.not_not.1 c3)
+                  exact ih (hi - (guess lo hi).toNat) (by omega) _ hi rfl (by omega) hhi (by omega) hk2
+end Order
+
+variable {β : Type}
+
+/-! ## sums over nested arrays -/
+section Total
+variable [Add β] [Zero β]
+mutual
+def total : NArr β → β
+  | .leaf v => v
+  | .node xs => totalList xs
+def totalList : List (NArr β) → β
+  | [] => 0
+  | x :: xs => total x + totalList xs
+end
+end Total
+
+section Monoid
+variable [Lean.Grind.AddCommMonoid β]
+open Lean.Grind.AddCommMonoid
+
+theorem zero_add' (a : β) : 0 + a = a := by rw [add_comm, add_zero]
+theorem add_right_comm' (a b c : β) : a + b + c = a + c + b := by
+  rw [add_assoc, add_comm b c, ← add_assoc]
+
+theorem totalList_set {w : β} : ∀ (xs : List (NArr β)) (i : Nat) (x x' : NArr β),
+    xs[i]? = some x → total x' = total x + w → totalList (xs.set i x') = totalList xs + w
+  | [], i, x, x', h, _ => by simp at h
+  | y :: ys, 0, x, x', h, ht => by
+    simp at h; subst h
+    simp only [List.set_cons_zero, totalList, ht]
+    exact add_right_comm' _ _ _
+  | y :: ys, i + 1, x, x', h, ht => by
+    simp at h
+    simp only [List.set_cons_succ, totalList, totalList_set ys i x x' h ht, add_assoc]
+
+mutual
+theorem foldl_values (a : NArr β) (z : β) :
+    ((NArr.cells a).map (·.2)).foldl (· + ·) z = z + total a := by
+  match a with
+  | .leaf v => simp [NArr.cells, total]
+  | .node xs => simp only [NArr.cells, total]; exact foldl_valuesFrom 0 xs z
+theorem foldl_valuesFrom (k : Nat) (xs : List (NArr β)) (z : β) :
+    ((NArr.cellsFrom k xs).map (·.2)).foldl (· + ·) z = z + totalList xs := by
+  match xs with
+  | [] => simp [NArr.cellsFrom, totalList, add_zero]
+  | x :: xs =>
+    simp only [NArr.cellsFrom, List.map_append, List.foldl_append, List.map_map, totalList]
+    have : (List.map ((fun x => x.snd) ∘ fun p => (k :: p.fst, p.snd)) (NArr.cells x)) = (NArr.cells x).map (·.2) := by
+      apply List.map_congr_left; intro p _; rfl
+    rw [this, foldl_values x z, foldl_valuesFrom (k + 1) xs, add_assoc]
+end
+
+theorem getNevents_eq {α : Type} (h : Hist α β) (b : Bool) :
+    getNevents h b = if b then total h.bins + h.nOut else total h.bins := by
+  simp [getNevents, NArr.values, foldl_values, zero_add']
+end Monoid
+
+/-! ## the walk of `fill` -/
+section Walk
+variable [Add β]
+
+theorem fillWalk_nil (w : β) (a : NArr β) : fillWalk w a [] = .error .indexError := by
+  cases a <;> simp [fillWalk]
+
+end Walk
+/-! ## the walk of `fill` (2) -/
+section Walk2
+variable [Lean.Grind.AddCommMonoid β]
+open Lean.Grind.AddCommMonoid
+
+/-- whatever the shapes: a walk that reaches a cell adds exactly `w` to the sum of all cells -/
+theorem fillWalk_total (w : β) : ∀ (idxs : List Int) (a a' : NArr β),
+    fillWalk w a idxs = .ok (some a') → total a' = total a + w
+  | [], a, a', h => by rw [fillWalk_nil] at h; cases h
+  | [i], a, a', h => by
+    unfold fillWalk at h
+    split at h
+    · cases h
+    · cases a with
+      | leaf c => simp at h
+      | node xs =>
+        simp only at h
+        split at h
+        · cases h
+        · rename_i c hc
+          simp only [Except.ok.injEq, Option.some.injEq] at h
+          subst h
+          simp only [total]
+          exact totalList_set xs _ (.leaf c) _ hc (by simp [total])
+        · cases h
+  | i :: j :: is, a, a', h => by
+    unfold fillWalk at h
+    split at h
+    · cases h
+    · cases a with
+      | leaf c => simp at h
+      | node xs =>
+        simp only at h
+        split at h
+        · cases h
+        · rename_i x hx
+          split at h
+          · cases h
+          · cases h
+          · rename_i x' hx'
+            simp only [Except.ok.injEq, Option.some.injEq] at h
+            subst h
+            simp only [total]
+            exact totalList_set xs _ x x' hx (fillWalk_total w (j :: is) x x' hx')
+
+end Walk2
+/-! ## regular shapes -/
+section Shape
+variable [Add β]
+
+/-- every index within its axis -/
+def InRange : List Int → List Nat → Prop
+  | [], [] => True
+  | i :: is, d :: ds => (0 ≤ i ∧ i < (d : Int)) ∧ InRange is ds
+  | _, _ => False
+
+instance : ∀ (is : List Int) (ds : List Nat), Decidable (InRange is ds)
+  | [], [] => isTrue trivial
+  | i :: is, d :: ds =>
+    have := instDecidableInRange is ds
+    by unfold InRange; exact inferInstance
+  | [], _ :: _ => isFalse (by simp [InRange])
+  | _ :: _, [] => isFalse (by simp [InRange])
+
+theorem hasShape_node {n : Nat} {ns : List Nat} {xs : List (NArr β)} :
+    NArr.HasShape (n :: ns) (.node xs) ↔ xs.length = n ∧ ∀ x ∈ xs, NArr.HasShape ns x := by
+  rw [NArr.HasShape]
+
+theorem hasShape_leaf_cons {n : Nat} {ns : List Nat} {c : β} : ¬ NArr.HasShape (n :: ns) (.leaf c) := by
+  rw [NArr.HasShape]; exact id
+
+theorem hasShape_nil {a : NArr β} : NArr.HasShape [] a ↔ ∃ c, a = .leaf c := by
+  cases a <;> simp [NArr.HasShape]
+
+theorem fillWalk_inRange (w : β) : ∀ (idxs : List Int) (ds : List Nat) (a : NArr β),
+    NArr.HasShape ds a → InRange idxs ds → ds ≠ [] →
+    fillWalk w a idxs = .ok (some (NArr.modifyAt (· + w) a (idxs.map Int.toNat)))
+  | [], [], _, _, _, hne => absurd rfl hne
+  | [], _ :: _, _, _, hr, _ => by simp [InRange] at hr
+  | _ :: _, [], _, _, hr, _ => by simp [InRange] at hr
+  | [i], [d], a, hs, hr, _ => by
+    cases a with
+    | leaf c => exact absurd hs hasShape_leaf_cons
+    | node xs =>
+      obtain ⟨hlen, hall⟩ := hasShape_node.1 hs
+      simp only [InRange, and_true] at hr
+      have hi : i.toNat < xs.length := by omega
+      obtain ⟨c, hc⟩ := hasShape_nil.1 (hall _ (List.getElem_mem hi))
+      have hx : xs[i.toNat]? = some (.leaf c) := by rw [List.getElem?_eq_getElem hi, hc]
+      have : ¬ i < 0 := by omega
+      simp [fillWalk, this, hx, NArr.modifyAt]
+  | [_], _ :: _ :: _, _, _, hr, _ => by simp [InRange] at hr
+  | _ :: _ :: _, [_], _, _, hr, _ => by simp [InRange] at hr
+  | i :: j :: is, d :: d2 :: ds, a, hs, hr, _ => by
+    cases a with
+    | leaf c => exact absurd hs hasShape_leaf_cons
+    | node xs =>
+      obtain ⟨hlen, hall⟩ := hasShape_node.1 hs
+      have hr' : (0 ≤ i ∧ i < (d : Int)) ∧ InRange (j :: is) (d2 :: ds) := hr
+      have hi : i.toNat < xs.length := by omega
+      have hx : xs[i.toNat]? = some xs[i.toNat] := List.getElem?_eq_getElem hi
+      have ih := fillWalk_inRange w (j :: is) (d2 :: ds) xs[i.toNat] (hall _ (List.getElem_mem hi)) hr'.2 (by simp)
+      have : ¬ i < 0 := by omega
+      simp only [List.map_cons] at ih
+      simp [fillWalk, this, hx, ih, NArr.modifyAt]
+
+theorem fillWalk_outRange (w : β) : ∀ (idxs : List Int) (ds : List Nat) (a : NArr β),
+    NArr.HasShape ds a → idxs.length = ds.length → ¬ InRange idxs ds → ds ≠ [] →
+    fillWalk w a idxs = .ok none
+  | [], [], _, _, _, _, hne => absurd rfl hne
+  | [], _ :: _, _, _, hl, _, _ => by simp at hl
+  | _ :: _, [], _, _, hl, _, _ => by simp at hl
+  | [i], [d], a, hs, _, hr, _ => by
+    cases a with
+    | leaf c => exact absurd hs hasShape_leaf_cons
+    | node xs =>
+      obtain ⟨hlen, hall⟩ := hasShape_node.1 hs
+      simp only [InRange, and_true] at hr
+      by_cases h0 : i < 0
+      · simp [fillWalk, h0]
+      · have hx : xs[i.toNat]? = none := by rw [List.getElem?_eq_none]; omega
+        simp [fillWalk, h0, hx]
+  | [_], _ :: _ :: _, _, _, hl, _, _ => by simp at hl
+  | _ :: _ :: _, [_], _, _, hl, _, _ => by simp at hl
+  | i :: j :: is, d :: d2 :: ds, a, hs, hl, hr, _ => by
+    cases a with
+    | leaf c => exact absurd hs hasShape_leaf_cons
+    | node xs =>
+      obtain ⟨hlen, hall⟩ := hasShape_node.1 hs
+      by_cases h0 : i < 0
+      · simp [fillWalk, h0]
+      · by_cases hi : i.toNat < xs.length
+        · have hx : xs[i.toNat]? = some xs[i.toNat] := List.getElem?_eq_getElem hi
+          have hr2 : ¬ InRange (j :: is) (d2 :: ds) := by
+            intro h; apply hr
+            exact ⟨by omega, h⟩
+          have ih := fillWalk_outRange w (j :: is) (d2 :: ds) xs[i.toNat] (hall _ (List.getElem_mem hi))
+            (by simpa using hl) hr2 (by simp)
+          simp [fillWalk, h0, hx, ih]
+        · have hx : xs[i.toNat]? = none := by rw [List.getElem?_eq_none]; omega
+          simp [fillWalk, h0, hx]
+
+/-- `modifyAt` keeps a regular shape -/
+theorem hasShape_modifyAt (f : β → β) : ∀ (idx : List Nat) (ds : List Nat) (a : NArr β),
+    NArr.HasShape ds a → NArr.HasShape ds (NArr.modifyAt f a idx)
+  | [], ds, .leaf c, hs => by
+    cases ds with
+    | nil => simp [NArr.modifyAt, NArr.HasShape]
+    | cons d ds => exact absurd hs hasShape_leaf_cons
+  | _ :: _, _, .leaf c, hs => by simpa [NArr.modifyAt] using hs
+  | [], _, .node xs, hs => by simpa [NArr.modifyAt] using hs
+  | i :: is, ds, .node xs, hs => by
+    cases ds with
+    | nil => simp [NArr.HasShape] at hs
+    | cons d ds =>
+      obtain ⟨hlen, hall⟩ := hasShape_node.1 hs
+      unfold NArr.modifyAt
+      cases hx : xs[i]? with
+      | none => simpa using hs
+      | some x =>
+        simp only
+        rw [hasShape_node]
+        refine ⟨by simpa using hlen, ?_⟩
+        intro y hy
+        rcases List.mem_or_eq_of_mem_set hy with hy | rfl
+        · exact hall y hy
+        · exact hasShape_modifyAt f is ds x (hall x (List.mem_of_getElem? hx))
+
+end Shape
+
+/-! ## more about the walk: shape and existence of the cell -/
+section Walk3
+variable [Add β]
+
+/-- whatever the indices: a walk that reaches a cell keeps a regular shape -/
+theorem fillWalk_shape (w : β) : ∀ (idxs : List Int) (ds : List Nat) (a a' : NArr β),
+    fillWalk w a idxs = .ok (some a') → NArr.HasShape ds a → NArr.HasShape ds a'
+  | [], _, a, a', h, _ => by rw [fillWalk_nil] at h; cases h
+  | [i], ds, a, a', h, hs => by
+    unfold fillWalk at h
+    split at h
+    · cases h
+    · cases a with
+      | leaf c => simp at h
+      | node xs =>
+        simp only at h
+        split at h
+        · cases h
+        · rename_i c hc
+          simp only [Except.ok.injEq, Option.some.injEq] at h
+          subst h
+          cases ds with
+          | nil => simp [NArr.HasShape] at hs
+          | cons d ds =>
+            obtain ⟨hlen, hall⟩ := hasShape_node.1 hs
+            rw [hasShape_node]
+            refine ⟨by simpa using hlen, ?_⟩
+            intro y hy
+            rcases List.mem_or_eq_of_mem_set hy with hy | rfl
+            · exact hall y hy
+            · have := hall _ (List.mem_of_getElem? hc)
+              obtain ⟨c', hc'⟩ := hasShape_nil.1 (by
+                cases ds with
+                | nil => exact this
+                | cons d2 ds => exact absurd this hasShape_leaf_cons)
+              cases ds with
+              | nil => simp [NArr.HasShape]
+              | cons d2 ds => exact absurd this hasShape_leaf_cons
+        · cases h
+  | i :: j :: is, ds, a, a', h, hs => by
+    unfold fillWalk at h
+    split at h
+    · cases h
+    · cases a with
+      | leaf c => simp at h
+      | node xs =>
+        simp only at h
+        split at h
+        · cases h
+        · rename_i x hx
+          split at h
+          · cases h
+          · cases h
+          · rename_i x' hx'
+            simp only [Except.ok.injEq, Option.some.injEq] at h
+            subst h
+            cases ds with
+            | nil => simp [NArr.HasShape] at hs
+            | cons d ds =>
+              obtain ⟨hlen, hall⟩ := hasShape_node.1 hs
+              rw [hasShape_node]
+              refine ⟨by simpa using hlen, ?_⟩
+              intro y hy
+              rcases List.mem_or_eq_of_mem_set hy with hy | rfl
+              · exact hall y hy
+              · exact fillWalk_shape w (j :: is) ds x _ hx' (hall x (List.mem_of_getElem? hx))
+
+/-- in a regular array every in-range index addresses a cell -/
+theorem get?_of_inRange : ∀ (idxs : List Int) (ds : List Nat) (a : NArr β),
+    NArr.HasShape ds a → InRange idxs ds → ∃ c, NArr.get? a (idxs.map Int.toNat) = some (.leaf c)
+  | [], [], a, hs, _ => by
+    obtain ⟨c, rfl⟩ := hasShape_nil.1 hs
+    exact ⟨c, rfl⟩
+  | [], _ :: _, _, _, hr => by simp [InRange] at hr
+  | _ :: _, [], _, _, hr => by simp [InRange] at hr
+  | i :: is, d :: ds, a, hs, hr => by
+    cases a with
+    | leaf c => exact absurd hs hasShape_leaf_cons
+    | node xs =>
+      obtain ⟨hlen, hall⟩ := hasShape_node.1 hs
+      have hr' : (0 ≤ i ∧ i < (d : Int)) ∧ InRange is ds := hr
+      have hi : i.toNat < xs.length := by omega
+      obtain ⟨c, hc⟩ := get?_of_inRange is ds xs[i.toNat] (hall _ (List.getElem_mem hi)) hr'.2
+      refine ⟨c, ?_⟩
+      simp only [List.map_cons, NArr.get?, List.getElem?_eq_getElem hi]
+      exact hc
+
+end Walk3
+
+/-! ## reading cells: `get?` against `modifyAt` -/
+section Frame
+
+theorem get?_modifyAt_same (f : β → β) : ∀ (idx : List Nat) (a : NArr β) (c : β),
+    NArr.get? a idx = some (.leaf c) → NArr.get? (NArr.modifyAt f a idx) idx = some (.leaf (f c))
+  | [], .leaf v, c, h => by simp [NArr.get?] at h; subst h; simp [NArr.modifyAt, NArr.get?]
+  | [], .node xs, c, h => by simp [NArr.get?] at h
+  | _ :: _, .leaf v, c, h => by simp [NArr.get?] at h
+  | i :: is, .node xs, c, h => by
+    unfold NArr.get? at h
+    unfold NArr.modifyAt
+    cases hx : xs[i]? with
+    | none => simp [hx] at h
+    | some x =>
+      simp only [hx] at h
+      have hi : i < xs.length := (List.getElem?_eq_some_iff.1 hx).1
+      simp only [NArr.get?, List.getElem?_set_self hi]
+      exact get?_modifyAt_same f is x c h
+
+theorem get?_modifyAt_other (f : β → β) : ∀ (idx j : List Nat) (a : NArr β),
+    j ≠ idx → j.length = idx.length → NArr.get? (NArr.modifyAt f a idx) j = NArr.get? a j
+  | [], [], _, hne, _ => absurd rfl hne
+  | [], _ :: _, _, _, hl => by simp at hl
+  | _ :: _, [], _, _, hl => by simp at hl
+  | i :: is, j0 :: js, .leaf v, _, _ => by simp [NArr.modifyAt]
+  | i :: is, j0 :: js, .node xs, hne, hl => by
+    unfold NArr.modifyAt
+    cases hx : xs[i]? with
+    | none => rfl
+    | some x =>
+      simp only [NArr.get?]
+      by_cases hij : i = j0
+      · subst hij
+        have hi : i < xs.length := (List.getElem?_eq_some_iff.1 hx).1
+        have hjs : js ≠ is := fun h => hne (by rw [h])
+        simp only [List.getElem?_set_self hi, hx]
+        exact get?_modifyAt_other f is js x hjs (by simpa using hl)
+      · rw [List.getElem?_set_ne hij]
+
+end Frame
+/-! ## cells of a mesh -/
+section Cells
+variable {α : Type} [LT α] [LE α] [DecidableLT α] [DecidableLE α] [DecidableEq α]
+  [Std.IsLinearOrder α] [Std.LawfulOrderLT α]
+
+/-- per axis: (number of edges not greater than the coordinate) − 1 -/
+def indices (axes : List (List α)) (xs : List α) : List Int :=
+  List.zipWith (fun arr x => (countLE arr x : Int) - 1) axes xs
+
+/-- number of bins per axis -/
+def dimsOf (axes : List (List α)) : List Nat := axes.map (fun a => a.length - 1)
+
+/-- the cell `idx` contains the point `xs`: in every dimension `k` the half-open interval
+`[axes[k][idx[k]], axes[k][idx[k]+1])` contains `xs[k]` -/
+def InCell : List (List α) → List α → List Nat → Prop
+  | [], [], [] => True
+  | arr :: axes, x :: xs, i :: idx =>
+    (∃ h : i + 1 < arr.length, arr[i] ≤ x ∧ x < arr[i + 1]) ∧ InCell axes xs idx
+  | _, _, _ => False
+
+theorem inCell_axis_iff {arr : List α} (hinc : StrictInc arr) (x : α) (i : Nat) :
+    (∃ h : i + 1 < arr.length, arr[i] ≤ x ∧ x < arr[i + 1]) ↔
+      (countLE arr x = i + 1 ∧ i + 1 < arr.length) := by
+  constructor
+  · rintro ⟨h, h1, h2⟩
+    have a := (le_iff_lt_countLE (v := x) hinc i (by omega)).1 h1
+    have b := (not_congr (le_iff_lt_countLE (v := x) hinc (i + 1) h)).1 (lt_iff_not_le'.1 h2)
+    exact ⟨by omega, h⟩
+  · rintro ⟨hk, h⟩
+    refine ⟨h, (le_iff_lt_countLE (v := x) hinc i (by omega)).2 (by omega), ?_⟩
+    rw [lt_iff_not_le', le_iff_lt_countLE (v := x) hinc (i + 1) h]
+    omega
+
+theorem inCell_iff : ∀ (axes : List (List α)) (xs : List α) (idx : List Nat),
+    (∀ arr ∈ axes, StrictInc arr) → xs.length = axes.length →
+    (InCell axes xs idx ↔
+      InRange (indices axes xs) (dimsOf axes) ∧ idx = (indices axes xs).map Int.toNat)
+  | [], [], [], _, _ => by simp [InCell, InRange, indices, dimsOf]
+  | [], [], _ :: _, _, _ => by simp [InCell, InRange, indices, dimsOf]
+  | [], _ :: _, _, _, hl => by simp at hl
+  | _ :: _, [], _, _, hl => by simp at hl
+  | arr :: axes, x :: xs, [], _, _ => by simp [InCell, indices]
+  | arr :: axes, x :: xs, i :: idx, hinc, hl => by
+    have ih := inCell_iff axes xs idx (fun a ha => hinc a (List.mem_cons_of_mem _ ha)) (by simpa using hl)
+    have hax := inCell_axis_iff (hinc arr (by simp)) x i
+    simp only [InCell, indices, dimsOf, List.zipWith_cons_cons, List.map_cons, InRange, List.cons.injEq] at ih ⊢
+    rw [hax, ih]
+    constructor
+    · rintro ⟨⟨hk, hlt⟩, hr, hidx⟩
+      refine ⟨⟨by omega, hr⟩, by omega, hidx⟩
+    · rintro ⟨⟨hk, hr⟩, hi, hidx⟩
+      refine ⟨by omega, hr, hidx⟩
+
+/-- at most one cell contains a point -/
+theorem inCell_unique {axes : List (List α)} {xs : List α} {i j : List Nat}
+    (hinc : ∀ arr ∈ axes, StrictInc arr) (hl : xs.length = axes.length)
+    (hi : InCell axes xs i) (hj : InCell axes xs j) : i = j := by
+  rw [((inCell_iff axes xs i hinc hl).1 hi).2, ((inCell_iff axes xs j hinc hl).1 hj).2]
+
+theorem inCell_length : ∀ {axes : List (List α)} {xs : List α} {idx : List Nat},
+    InCell axes xs idx → idx.length = axes.length
+  | [], [], [], _ => rfl
+  | [], [], _ :: _, h => by simp [InCell] at h
+  | [], _ :: _, _, h => by simp [InCell] at h
+  | _ :: _, [], _, h => by simp [InCell] at h
+  | _ :: _, _ :: _, [], h => by simp [InCell] at h
+  | _ :: axes, _ :: xs, _ :: idx, h => by
+    have := inCell_length (axes := axes) (xs := xs) (idx := idx) h.2
+    simp [this]
+
+end Cells
+/-! ## the search without the order hypothesis: it returns, and within `[ind_min − 1, ind_max]` -/
+section Totality
+variable {α : Type} [LT α] [LE α] [DecidableLT α] [DecidableLE α] [DecidableEq α]
+
+theorem bin1dLoop_total (guess : Nat → Nat → Int) (val : α) (arr : List α) (hg : GuessOK guess) :
+    ∀ (n lo hi : Nat), hi - lo = n → lo ≤ hi → hi < arr.length →
+      ∃ r, bin1dLoop guess val arr lo hi = .ok r ∧ (lo : Int) - 1 ≤ r ∧ r ≤ (hi : Int) := by
+  intro n
+  induction n using Nat.strongRecOn with
+  | _ n ih =>
+    intro lo hi hn hle hhi
+    have hlo : lo < arr.length := by omega
+    rw [bin1dLoop]
+    simp only [List.getElem?_eq_getElem hlo, List.getElem?_eq_getElem hhi]
+    by_cases hsmall : hi - lo ≤ 1
+    · simp only [hsmall, if_true]
+      split
+      · exact ⟨_, rfl, by omega, by omega⟩
+      · split
+        · exact ⟨_, rfl, by omega, by omega⟩
+        · exact ⟨_, rfl, by omega, by omega⟩
+    · simp only [hsmall, if_false]
+      split
+      · exact ⟨_, rfl, by omega, by omega⟩
+      · split
+        · exact ⟨_, rfl, by omega, by omega⟩
+        · split
+          · exact ⟨_, rfl, by omega, by omega⟩
+          · have hgl := (hg lo hi hle).1
+            have hgh := (hg lo hi hle).2
+            have hnot : ¬ (guess lo hi < (lo : Int) ∨ (hi : Int) < guess lo hi) := by omega
+            simp only [hnot, if_false]
+            split
+            · obtain ⟨r, h, h1, h2⟩ := ih (hi - (lo + 1)) (by omega) (lo + 1) hi rfl (by omega) hhi
+              exact ⟨r, h, by omega, h2⟩
+            · split
+              · obtain ⟨r, h, h1, h2⟩ := ih (hi - 1 - lo) (by omega) lo (hi - 1) rfl (by omega) (by omega)
+                exact ⟨r, h, h1, by omega⟩
+              · have hgn : (guess lo hi).toNat < arr.length := by omega
+                simp only [List.getElem?_eq_getElem hgn]
+                split
+                · obtain ⟨r, h, h1, h2⟩ := ih ((guess lo hi).toNat - lo) (by omega) lo _ rfl (by omega) hgn
+                  exact ⟨r, h, h1, by omega⟩
+                · obtain ⟨r, h, h1, h2⟩ := ih (hi - (guess lo hi).toNat) (by omega) _ hi rfl (by omega) hhi
+                  exact ⟨r, h, by omega, h2⟩
+
+end Totality
+
+/-! ## `check_edges_increasing`, `init_bins`, `histogram.__init__` -/
+section Init
+variable {α : Type} [LT α] [LE α] [DecidableLT α] [DecidableLE α] [DecidableEq α]
+  [Std.IsLinearOrder α] [Std.LawfulOrderLT α]
+
+/-- an axis of a histogram: at least two strictly increasing edges -/
+def ValidAxis (arr : List α) : Prop := 2 ≤ arr.length ∧ StrictInc arr
+
+/-- "strictly increasing finite edges in any dimension": at least one axis, every axis valid -/
+def ValidEdges (e : Edges α) : Prop := e.axes ≠ [] ∧ ∀ arr ∈ e.axes, ValidAxis arr
+
+theorem checkEdges1d_ok {arr : List α} (h : ValidAxis arr) : checkEdges1d arr = .ok () := by
+  have h1 : ¬ arr.length ≤ 1 := by have := h.1; omega
+  have h2 : increasingPairs arr = true := (increasingPairs_iff arr).2 h.2
+  simp [checkEdges1d, h1, h2]
+
+theorem checkEdges1d_err {arr : List α} (h : ¬ ValidAxis arr) : checkEdges1d arr = .error .lenaValueError := by
+  unfold checkEdges1d
+  by_cases h1 : arr.length ≤ 1
+  · simp [h1]
+  · have h2 : ¬ increasingPairs arr = true := fun hp => h ⟨by omega, (increasingPairs_iff arr).1 hp⟩
+    simp [h1, h2]
+
+theorem checkEdgesAxes_ok : ∀ {axes : List (List α)}, (∀ arr ∈ axes, ValidAxis arr) →
+    checkEdgesAxes axes = .ok ()
+  | [], _ => rfl
+  | arr :: rest, h => by
+    have ha := h arr (by simp)
+    have h1 : ¬ arr.length ≤ 1 := by have := ha.1; omega
+    have ih := checkEdgesAxes_ok (axes := rest) (fun a hm => h a (List.mem_cons_of_mem _ hm))
+    simp [checkEdgesAxes, h1, checkEdges1d_ok ha, ih, bind, Except.bind]
+
+theorem checkEdgesAxes_err : ∀ {axes : List (List α)}, ¬ (∀ arr ∈ axes, ValidAxis arr) →
+    checkEdgesAxes axes = .error .lenaValueError
+  | [], h => absurd (by simp) h
+  | arr :: rest, h => by
+    unfold checkEdgesAxes
+    by_cases h1 : arr.length ≤ 1
+    · simp [h1]
+    · by_cases ha : ValidAxis arr
+      · have hr : ¬ (∀ a ∈ rest, ValidAxis a) := by
+          intro hr; apply h; intro a hm
+          rcases List.mem_cons.1 hm with rfl | hm
+          · exact ha
+          · exact hr a hm
+        simp [h1, checkEdges1d_ok ha, checkEdgesAxes_err hr, bind, Except.bind]
+      · simp [h1, checkEdges1d_err ha, bind, Except.bind]
+
+theorem checkEdgesIncreasing_ok {e : Edges α} (h : ValidEdges e) : checkEdgesIncreasing e = .ok () := by
+  cases e with
+  | flat arr =>
+    have ha : ValidAxis arr := h.2 arr (by simp [Edges.axes])
+    have : ¬ arr.length = 0 := by have := ha.1; omega
+    simp [checkEdgesIncreasing, this, checkEdges1d_ok ha]
+  | nested axes =>
+    have : ¬ axes.length = 0 := by have := h.1; simpa [Edges.axes] using this
+    simp only [checkEdgesIncreasing, this, if_false]
+    exact checkEdgesAxes_ok h.2
+
+theorem checkEdgesIncreasing_err {e : Edges α} (h : ¬ ValidEdges e) :
+    checkEdgesIncreasing e = .error .lenaValueError := by
+  cases e with
+  | flat arr =>
+    unfold checkEdgesIncreasing
+    by_cases h0 : arr.length = 0
+    · simp [h0]
+    · have : ¬ ValidAxis arr := fun ha => h ⟨by simp [Edges.axes], by simpa [Edges.axes] using ha⟩
+      simp [h0, checkEdges1d_err this]
+  | nested axes =>
+    unfold checkEdgesIncreasing
+    by_cases h0 : axes.length = 0
+    · simp [h0]
+    · have : ¬ (∀ a ∈ axes, ValidAxis a) := fun ha => h ⟨by simpa [Edges.axes] using h0, ha⟩
+      simp [h0, checkEdgesAxes_err this]
+
+omit [LT α] [LE α] [DecidableLT α] [DecidableLE α] [DecidableEq α] [Std.IsLinearOrder α] [Std.LawfulOrderLT α] in
+theorem initBinsAxes_eq (v : β) : ∀ (axes : List (List α)), axes ≠ [] →
+    initBinsAxes v axes = .ok (NArr.full (axes.map (fun a => a.length - 1)) v)
+  | [], h => absurd rfl h
+  | [arr], _ => by simp [initBinsAxes, NArr.full]
+  | arr :: b :: rest, _ => by
+    have ih := initBinsAxes_eq v (b :: rest) (by simp)
+    simp only [initBinsAxes, ih, bind, Except.bind, List.map_cons, NArr.full, pure, Except.pure]
+
+omit [LT α] [LE α] [DecidableLT α] [DecidableLE α] [DecidableEq α] [Std.IsLinearOrder α] [Std.LawfulOrderLT α] in
+theorem initBins_eq (v : β) (e : Edges α) (h : e.axes ≠ []) (h1 : ∀ a ∈ e.axes, a ≠ []) :
+    initBins v e = .ok (NArr.full (e.axes.map (fun a => a.length - 1)) v) := by
+  cases e with
+  | flat arr =>
+    have : ¬ arr.length = 0 := by have := h1 arr (by simp [Edges.axes]); simpa using this
+    simp [initBins, this, Edges.axes, NArr.full]
+  | nested axes => exact initBinsAxes_eq v axes h
+
+theorem hasShape_full (v : β) : ∀ ds : List Nat, NArr.HasShape ds (NArr.full ds v)
+  | [] => by simp [NArr.full, NArr.HasShape]
+  | d :: ds => by
+    rw [NArr.full, NArr.HasShape]
+    refine ⟨by simp, ?_⟩
+    intro x hx
+    rw [List.eq_of_mem_replicate hx]
+    exact hasShape_full v ds
+
+end Init
+
+section InitTotal
+variable [Lean.Grind.AddCommMonoid β]
+open Lean.Grind.AddCommMonoid
+
+theorem totalList_replicate_zero (x : NArr β) (hx : total x = 0) : ∀ n, totalList (List.replicate n x) = 0
+  | 0 => rfl
+  | n + 1 => by simp [List.replicate_succ, totalList, hx, totalList_replicate_zero x hx n, add_zero]
+
+theorem total_full_zero : ∀ ds : List Nat, total (NArr.full ds (0 : β)) = 0
+  | [] => rfl
+  | d :: ds => by
+    simp only [NArr.full, total]
+    exact totalList_replicate_zero _ (total_full_zero ds) d
+
+end InitTotal
+/-! ## the interpolation guess in exact arithmetic -/
+section Interp
+
+/-- the interpolation of hist_functions.py:206-210 in exact integer arithmetic: `ind_min +
+floor((ind_max − ind_min)·(val − arr[ind_min]) / (arr[ind_max] − arr[ind_min]))` -/
+def interpGuess (arr : List Int) (val : Int) (lo hi : Nat) : Int :=
+  (lo : Int) + (((hi : Int) - (lo : Int)) * (val - arr[lo]?.getD 0)) / (arr[hi]?.getD 0 - arr[lo]?.getD 0)
+
+/-- in exact arithmetic the interpolation guess is within `[ind_min, ind_max]` wherever the search
+consults it -/
+theorem interpGuess_okAt (arr : List Int) (val : Int) : GuessOKAt arr val (interpGuess arr val) := by
+  intro lo hi h hl h1 h2
+  have hlo : lo < arr.length := by omega
+  simp only [interpGuess, List.getElem?_eq_getElem hlo, List.getElem?_eq_getElem h, Option.getD_some]
+  have hd : (0 : Int) ≤ (hi : Int) - (lo : Int) := by omega
+  have hx : 0 ≤ val - arr[lo] := by omega
+  have hy : 0 < arr[hi] - arr[lo] := by omega
+  have hq0 : 0 ≤ (((hi : Int) - (lo : Int)) * (val - arr[lo])) / (arr[hi] - arr[lo]) :=
+    Int.ediv_nonneg (Int.mul_nonneg hd hx) (Int.le_of_lt hy)
+  have hle : ((hi : Int) - (lo : Int)) * (val - arr[lo]) ≤ ((hi : Int) - (lo : Int)) * (arr[hi] - arr[lo]) :=
+    Int.mul_le_mul_of_nonneg_left (by omega) hd
+  have hq1 : (((hi : Int) - (lo : Int)) * (val - arr[lo])) / (arr[hi] - arr[lo]) ≤ (hi : Int) - (lo : Int) := by
+    have := Int.ediv_le_ediv hy hle
+    rwa [Int.mul_ediv_cancel _ (Int.ne_of_gt hy)] at this
+  omega
+
+end Interp
+
+end Lena.C06
